@@ -90,6 +90,8 @@ struct upipe_tblk {
     unsigned int max_urefs;
     /** list of blockers (used during urequest) */
     struct uchain blockers;
+    /** true while the held urefs are being output */
+    bool draining;
 
     /** current input allocator */
     uint32_t input_alloc;
@@ -129,6 +131,7 @@ static struct upipe *upipe_tblk_alloc(struct upipe_mgr *mgr,
     upipe_tblk_init_ubuf_mgr(upipe);
     upipe_tblk_init_output(upipe);
     upipe_tblk_init_input(upipe);
+    upipe_tblk_from_upipe(upipe)->draining = false;
     upipe_tblk->input_alloc = UBUF_ALLOC_BLOCK;
     upipe_throw_ready(upipe);
     return upipe;
@@ -364,8 +367,15 @@ static int upipe_tblk_check(struct upipe *upipe, struct uref *flow_format)
     if (upipe_tblk->flow_def == NULL)
         return UBASE_ERR_NONE;
 
+    /* a ubuf manager provided while a held flow definition is being handled:
+     * the loop below carries on with the next held urefs */
+    if (upipe_tblk->draining)
+        return UBASE_ERR_NONE;
+
     bool was_buffered = !upipe_tblk_check_input(upipe);
+    upipe_tblk->draining = true;
     upipe_tblk_output_input(upipe);
+    upipe_tblk->draining = false;
     upipe_tblk_unblock_input(upipe);
     if (was_buffered && upipe_tblk_check_input(upipe)) {
         /* All packets have been output, release again the pipe that has been
